@@ -217,11 +217,22 @@ package getty
 // no open session (selectSession answers nil: the coordinator is unreachable) is a transport failure
 // like any other: the caller gets an error, not a nil-pointer panic
 //@ func (*GettyRemoting).SendSync
-//@   prop C14 C04
+//@   prop C14 C04 C19
 //@   requires g != nil && g.futures != nil && sessionManager != nil && ghost.wp_calls == 0
 //@   modifies heap.all, ghost.all
 //@   ensures no-session-is-an-error: s == nil && called("selectSession#1") && callres("selectSession#1", 0) == nil ==> result1 != nil && result0 == nil
+//@   at call selectSession#1: assert the-request-itself-is-offered-for-routing: arg_msg == msg.Body
 //@   nopanic
+
+// C19: the session is chosen by what the REQUEST says (its xid under the XID policy) - the request is the
+// body of the rpc envelope; the envelope has no xid. (SendAsync, which makes the same choice, is a trusted
+// boundary - see above - and is not checked for it.)
+// what the load balancer is given as the xid of a request
+//@ func (*SessionManager).getXid
+//@   prop C19
+//@   ensures xid-of-a-branch-registration: isT(msg, message.BranchRegisterRequest) ==> result == msg.(message.BranchRegisterRequest).Xid
+//@   ensures xid-of-a-branch-report: isT(msg, message.BranchReportRequest) ==> result == msg.(message.BranchReportRequest).Xid
+//@   may_panic
 
 // an asynchronous request gets the same waiter as a synchronous one, in a goroutine: it gives the
 // request up after the timeout and removes its future (syncCallback/timeout-cleans); without it an
